@@ -41,8 +41,56 @@ ExpNum(m, r, f) ==
 ExpStr(m, r, f) ==
   IF f = "ExportAddress" THEN m.addr
   ELSE LET src == { n \in DOMAIN r.strs : n \in DOMAIN StrMap /\ StrMap[n] = f } IN
-       IF src = {} THEN "" ELSE r.strs[CHOOSE n \in src : TRUE]
+       IF src = {} THEN << >> ELSE r.strs[CHOOSE n \in src : TRUE]
 Expected(m, r) == [nums |-> [f \in NumFields |-> ExpNum(m, r, f)], strs |-> [f \in StrFields |-> ExpStr(m, r, f)]]
+
+---------------------------------------------------------------------------
+(* Protobuf wire format (the subset the schemas use: varint and length-delimited fields), as a pure   *)
+(* operator over bytes, and the field numbers of the shipped .proto schemas.  String values are byte  *)
+(* sequences throughout (TLC cannot convert between strings and bytes).                               *)
+FieldNo == [ TimeReceived |-> 1, SequenceNumber |-> 2, ObsDomainID |-> 3, TimeFlowStartInSecs |-> 4, TimeFlowEndInSecs |-> 5,
+             SrcIP |-> 6, DstIP |-> 7, SrcPort |-> 8, DstPort |-> 9, Proto |-> 10, PacketsTotal |-> 11, BytesTotal |-> 12,
+             PacketsDelta |-> 13, BytesDelta |-> 14, ReversePacketsTotal |-> 15, ReverseBytesTotal |-> 16,
+             ReversePacketsDelta |-> 17, ReverseBytesDelta |-> 18, SrcPodName |-> 19, SrcPodNamespace |-> 20,
+             SrcNodeName |-> 21, DstPodName |-> 22, DstPodNamespace |-> 23, DstNodeName |-> 24, DstClusterIP |-> 25,
+             DstServicePortName |-> 26, TimeFlowStartInMilliSecs |-> 27, TimeFlowEndInMilliSecs |-> 28,
+             IngressPolicyName |-> 29, IngressPolicyNamespace |-> 30, EgressPolicyName |-> 31, EgressPolicyNamespace |-> 32,
+             ExportAddress |-> 33, DstServicePort |-> 34, FlowEndReason |-> 35, TcpState |-> 36 ]
+NameOfNo(n) == CHOOSE f \in DOMAIN FieldNo : FieldNo[f] = n
+KnownNo(n) == \E f \in DOMAIN FieldNo : FieldNo[f] = n
+
+\* varint at 1-based position p of b: [ok, val, next]; values are kept below 2^31
+Varint(b, p) ==
+  LET RECURSIVE V(_, _, _)
+      V(q, k, acc) ==
+        IF q > Len(b) \/ k > 4 THEN [ok |-> FALSE, val |-> 0, next |-> q]
+        ELSE LET c == b[q]
+                 mul == CASE k = 0 -> 1 [] k = 1 -> 128 [] k = 2 -> 16384 [] k = 3 -> 2097152 [] OTHER -> 268435456
+             IN IF k = 4 /\ (c % 128) > 7 THEN [ok |-> FALSE, val |-> 0, next |-> q]
+                ELSE IF c < 128 THEN [ok |-> TRUE, val |-> acc + c * mul, next |-> q + 1]
+                ELSE V(q + 1, k + 1, acc + (c % 128) * mul)
+  IN V(p, 0, 0)
+
+\* the whole payload: [ok, nums, strs] with nums : field name -> value, strs : field name -> bytes
+ParsePB(b) ==
+  LET RECURSIVE P(_, _, _)
+      P(p, nums, strs) ==
+        IF p > Len(b) THEN [ok |-> TRUE, nums |-> nums, strs |-> strs]
+        ELSE LET key == Varint(b, p) IN
+          IF ~key.ok \/ ~KnownNo(key.val \div 8) THEN [ok |-> FALSE, nums |-> nums, strs |-> strs]
+          ELSE LET name == NameOfNo(key.val \div 8)
+                   wt == key.val % 8 IN
+            IF wt = 0 THEN
+              LET v == Varint(b, key.next) IN
+              IF ~v.ok \/ name \notin NumFields THEN [ok |-> FALSE, nums |-> nums, strs |-> strs]
+              ELSE P(v.next, [x \in DOMAIN nums \cup {name} |-> IF x = name THEN v.val ELSE nums[x]], strs)
+            ELSE IF wt = 2 THEN
+              LET n == Varint(b, key.next) IN
+              IF ~n.ok \/ n.next + n.val - 1 > Len(b) \/ name \notin StrFields THEN [ok |-> FALSE, nums |-> nums, strs |-> strs]
+              ELSE P(n.next + n.val, nums,
+                     [x \in DOMAIN strs \cup {name} |-> IF x = name THEN SubSeq(b, n.next, n.next + n.val - 1) ELSE strs[x]])
+            ELSE [ok |-> FALSE, nums |-> nums, strs |-> strs]
+  IN P(1, [x \in {} |-> 0], [x \in {} |-> << >>])
 
 KInit == pending = << >> /\ npub = 0 /\ nout = 0
 
@@ -53,7 +101,7 @@ Publish(m) ==
   /\ npub' = npub + 1 /\ UNCHANGED nout
 
 GetNum(o, f) == IF f \in DOMAIN o.nums THEN o.nums[f] ELSE 0
-GetStr(o, f) == IF f \in DOMAIN o.strs THEN o.strs[f] ELSE ""
+GetStr(o, f) == IF f \in DOMAIN o.strs THEN o.strs[f] ELSE << >>
 FieldsMatch(o, e) == /\ \A f \in NumFields : GetNum(o, f) = e.nums[f]
                      /\ \A f \in StrFields : GetStr(o, f) = e.strs[f]
                      /\ DOMAIN o.nums \subseteq NumFields /\ DOMAIN o.strs \subseteq StrFields
